@@ -45,6 +45,9 @@ structure Facts where
       `if err != nil { return err }` plumbing normalised to a trailing `!`) of the functions that
       orchestrate Flatten, translated from the Go source by `harness/cmd/extract/skeleton.go` -/
   skeletons : List (String × List String) := []
+  /-- control skeletons of the phase functions of flatten.go that `Verif/Model/Flatten.lean` transcribes
+      function by function (same translator) -/
+  phaseSkeletons : List (String × List String) := []
   /-- index fields of the analyzed `Spec` (maps, slices, pointers other than the document) that
       `(*Spec).reset` does not replace by a fresh value: they would survive `reload()` -/
   resetStale : List String := []
@@ -80,6 +83,34 @@ def flattenSkeletons : List (String × List String) := [
   ("removeUnused", ["for removeUnusedSinglePass(opts) {", "}"]),
   ("removeUnusedShared", ["opts.Swagger().Parameters = nil", "opts.Swagger().Responses = nil", "opts.Spec.reload()"])]
 
+/-- The phase functions of flatten.go as the Lean model was written after them (`Flatten.normalizeRef`,
+    `RemoveUnused.singlePass`, `Flatten.importExternalReferences`, `importNewRef`, `nameInlinedSchemas`,
+    `namePointers`, `flattenAnonPointer`, `stripOAIGen`, `updateRefParents`, `stripOAIGenForRef`,
+    `InlineSchemaNamer.Name` = `nameSchema` / `nameWith`, `uniqifyName`, `namesFromKey`, `namesForParam`,
+    `namesForOperation`, `nameFromRef` = `rawNameFromRef` + mangling): pasted
+    from the translator's output at the commit the model was last brought in line with.  A change to one of
+    these functions makes `Generated.flatten_phase_skeletons` fail: the model has to be re-read against the
+    new source (and this table regenerated), whatever the correspondence streams say. -/
+def flattenPhaseSkeletons : List (String × List String) := [
+    ("normalizeRef", ["altered := false", "range opts.Spec.references.allRefs {", "  if !strings.HasPrefix(w.String(), opts.BasePath+definitionsPath) {", "    continue", "  }", "  altered = true", "  replace.UpdateRef(opts.Swagger(), k, spec.MustCreateRef(path.Join(definitionsPath, path.Base(w.String())))) !", "}", "if altered {", "  opts.Spec.reload()", "}", "return nil"]),
+    ("removeUnusedSinglePass", ["unused := make(map[string]struct{}, len(opts.Swagger().Definitions))", "range opts.Swagger().Definitions {", "  unused[k] = struct{}{}", "}", "range opts.Spec.references.schemas {", "  if name, ok := definitionNameFromRef(ref); ok {", "    delete(unused, name)", "  }", "}", "range unused {", "  hasRemoved = true", "  if opts.Verbose {", "    log.Printf(\"info: removing unused definition: %s\", k)", "  }", "  delete(opts.Swagger().Definitions, k)", "}", "opts.Spec.reload()", "return hasRemoved"]),
+    ("importExternalReferences", ["groupedRefs := sortref.ReverseIndex(opts.Spec.references.schemas, opts.BasePath)", "sortedRefStr := make([]string, 0, len(groupedRefs))", "if opts.flattenContext == nil {", "  opts.flattenContext = newContext()", "}", "range groupedRefs {", "  sortedRefStr = append(sortedRefStr, refStr)", "}", "sort.Strings(sortedRefStr)", "complete := true", "range sortedRefStr {", "  entry := groupedRefs[refStr]", "  if entry.Ref.HasFragmentOnly {", "    continue", "  }", "  complete = false", "  newName := opts.flattenContext.resolved[refStr]", "  if newName != \"\" {", "    importKnownRef(entry, refStr, newName, opts) !", "    continue", "  }", "  importNewRef(entry, refStr, opts) !", "}", "range opts.flattenContext.newRefs {", "  r := opts.flattenContext.newRefs[k]", "  if r.schema.Ref.String() != \"\" {", "    ref := spec.MustCreateRef(r.path)", "    sch, err := spec.ResolveRefWithBase(opts.Swagger(), &ref, opts.ExpandOpts(false)) ! via ErrResolveSchema(err)", "    r.schema = sch", "  }", "  if r.path == k {", "    continue", "  }", "  renamed := *r", "  renamed.key = r.path", "  opts.flattenContext.newRefs[renamed.path] = &renamed", "  r.newName = path.Base(k)", "  r.schema = spec.RefSchema(r.path)", "  r.path = k", "  r.isOAIGen = strings.Contains(k, \"OAIGen\")", "}", "return complete, nil"]),
+    ("importNewRef", ["var ( isOAIGen bool newName string )", "sch, err := spec.ResolveRefWithBase(opts.Swagger(), &entry.Ref, opts.ExpandOpts(false)) ! via ErrResolveSchema(err)", "partialAnalyzer := &Spec{ references: referenceAnalysis{}, patterns: patternAnalysis{}, enums: enumAnalysis{}, }", "partialAnalyzer.reset()", "partialAnalyzer.analyzeSchema(\"\", sch, \"/\")", "range partialAnalyzer.references.allRefs {", "  replace.UpdateRef(sch, key, spec.MustCreateRef(normalize.RebaseRef(entry.Ref.String(), ref.String()))) ! via ErrRewriteRef(key, entry.Ref.String(), err)", "}", "newName, isOAIGen = uniqifyName(opts.Swagger().Definitions, nameFromRef(entry.Ref, opts))", "opts.flattenContext.resolved[refStr] = newName", "range entry.Keys {", "  replace.UpdateRef(opts.Swagger(), key, spec.MustCreateRef(path.Join(definitionsPath, newName))) !", "  resolved := false", "  if _, ok := opts.flattenContext.newRefs[key]; ok {", "    resolved = opts.flattenContext.newRefs[key].resolved", "  }", "  opts.flattenContext.newRefs[key] = &newRef{ key: key, newName: newName, path: path.Join(definitionsPath, newName), isOAIGen: isOAIGen, resolved: resolved, schema: sch, }", "}", "schutils.Save(opts.Swagger(), newName, sch)", "return nil"]),
+    ("importKnownRef", ["range entry.Keys {", "  replace.UpdateRef(opts.Swagger(), key, spec.MustCreateRef(path.Join(definitionsPath, newName))) !", "}", "return nil"]),
+    ("nameInlinedSchemas", ["namer := &InlineSchemaNamer{ Spec: opts.Swagger(), Operations: operations.AllOpRefsByRef(opts.Spec, nil), flattenContext: opts.flattenContext, opts: opts, }", "depthFirst := sortref.DepthFirst(opts.Spec.allSchemas)", "range depthFirst {", "  sch := opts.Spec.allSchemas[key]", "  if sch.Schema == nil || sch.Schema.Ref.String() != \"\" || sch.TopLevel {", "    continue", "  }", "  asch, err := Schema(SchemaOpts{Schema: sch.Schema, Root: opts.Swagger(), BasePath: opts.BasePath}) ! via ErrAtKey(key, err)", "  if asch.isAnalyzedAsComplex() {", "    namer.Name(key, sch.Schema, asch) !", "  }", "}", "opts.Spec.reload()", "return nil"]),
+    ("namePointers", ["refsToReplace := make(map[string]SchemaRef, len(opts.Spec.references.schemas))", "range opts.Spec.references.allRefs {", "  if path.Dir(ref.String()) == definitionsPath {", "    if _, _, err := ref.GetPointer().Get(opts.Swagger()); err != nil && !opts.ContinueOnError {", "      return ErrAtKey(k, err)", "    }", "    continue", "  }", "  result, err := replace.DeepestRef(opts.Swagger(), opts.ExpandOpts(false), ref) ! via ErrAtKey(k, err)", "  replacingRef := result.Ref", "  sch := result.Schema", "  if opts.flattenContext != nil {", "    opts.flattenContext.warnings = append(opts.flattenContext.warnings, result.Warnings...)", "  }", "  refsToReplace[k] = SchemaRef{ Name: k, Ref: replacingRef, Schema: sch, TopLevel: path.Dir(replacingRef.String()) == definitionsPath, }", "}", "depthFirst := sortref.DepthFirst(refsToReplace)", "namer := &InlineSchemaNamer{ Spec: opts.Swagger(), Operations: operations.AllOpRefsByRef(opts.Spec, nil), flattenContext: opts.flattenContext, opts: opts, }", "range depthFirst {", "  v := refsToReplace[key]", "  result, erd := replace.DeepestRef(opts.Swagger(), opts.ExpandOpts(false), v.Ref) ! via ErrAtKey(key, erd)", "  if opts.flattenContext != nil {", "    opts.flattenContext.warnings = append(opts.flattenContext.warnings, result.Warnings...)", "  }", "  v.Ref = result.Ref", "  v.Schema = result.Schema", "  v.TopLevel = path.Dir(result.Ref.String()) == definitionsPath", "  if v.TopLevel {", "    replace.UpdateRef(opts.Swagger(), key, v.Ref) !", "    continue", "  }", "  flattenAnonPointer(key, v, refsToReplace, namer, opts) !", "}", "opts.Spec.reload()", "return nil"]),
+    ("flattenAnonPointer", ["asch, ers := Schema(SchemaOpts{Schema: v.Schema, Root: opts.Swagger(), BasePath: opts.BasePath}) ! via ErrAtKey(key, ers)", "callers := make([]string, 0, allocMediumMap)", "an := New(opts.Swagger())", "range an.references.allRefs {", "  r, err := replace.DeepestRef(opts.Swagger(), opts.ExpandOpts(false), w) ! via ErrAtKey(key, err)", "  if opts.flattenContext != nil {", "    opts.flattenContext.warnings = append(opts.flattenContext.warnings, r.Warnings...)", "  }", "  if r.Ref.String() == v.Ref.String() {", "    callers = append(callers, k)", "  }", "}", "if len(callers) == 0 {", "  return nil", "}", "parts := sortref.KeyParts(v.Ref.String())", "if (!asch.IsSimpleSchema || len(callers) > 1) && !parts.IsSharedParam() && !parts.IsSharedResponse() {", "  namer.Name(v.Ref.String(), v.Schema, asch) !", "  range callers {", "    if caller == key {", "      continue", "    }", "    c := refsToReplace[caller]", "    c.Ref = v.Ref", "    refsToReplace[caller] = c", "  }", "  return nil", "}", "replace.UpdateRefWithSchema(opts.Swagger(), key, v.Schema) !", "return nil"]),
+    ("stripOAIGen", ["replacedWithComplex := false", "range opts.flattenContext.newRefs {", "  updateRefParents(opts.Spec.references.allRefs, r)", "}", "range opts.flattenContext.newRefs {", "  r := opts.flattenContext.newRefs[k]", "  if !r.isOAIGen || len(r.parents) == 0 {", "    continue", "  }", "  hasReplacedWithComplex, err := stripOAIGenForRef(opts, k, r) !", "  replacedWithComplex = replacedWithComplex || hasReplacedWithComplex", "}", "opts.Spec.reload()", "return replacedWithComplex, nil"]),
+    ("updateRefParents", ["if !r.isOAIGen || r.resolved {", "  return", "}", "range allRefs {", "  if r.path != v.String() {", "    continue", "  }", "  found := false", "  range r.parents {", "    if p == k {", "      found = true", "      break", "    }", "  }", "  if !found {", "    r.parents = append(r.parents, k)", "  }", "}"]),
+    ("stripOAIGenForRef", ["replacedWithComplex := false", "pr := sortref.TopmostFirst(r.parents)", "outer := -1", "range pr {", "  if p != r.path && !strings.HasPrefix(p, r.path+\"/\") {", "    outer = i", "    break", "  }", "}", "switch { case outer < 0: return false, nil case outer > 0: reordered := make([]string, 0, len(pr)) reordered = append(reordered, pr[outer]) reordered = append(reordered, pr[:outer]...) reordered = append(reordered, pr[outer+1:]...) pr = reordered }", "replace.UpdateRefWithSchema(opts.Swagger(), pr[0], r.schema) !", "if pa, ok := opts.flattenContext.newRefs[pr[0]]; ok && pa.isOAIGen {", "  pa.schema = r.schema", "  pa.resolved = false", "  replacedWithComplex = true", "}", "if len(pr) > 1 {", "  range pr[1:] {", "    replacingRef := spec.MustCreateRef(pr[0])", "    replacedWithComplex = replacedWithComplex || path.Dir(replacingRef.String()) != definitionsPath", "    replace.UpdateRef(opts.Swagger(), p, replacingRef) !", "    if pa, ok := opts.flattenContext.newRefs[p]; ok && pa.isOAIGen {", "      pa.schema = r.schema", "      pa.resolved = false", "      replacedWithComplex = true", "    }", "  }", "}", "delete(opts.Swagger().Definitions, path.Base(r.path))", "range opts.flattenContext.newRefs {", "  if kk == k || !value.isOAIGen || value.resolved {", "    continue", "  }", "  found := false", "  newParents := make([]string, 0, len(value.parents))", "  range value.parents {", "    switch { case parent == r.path: found = true parent = pr[0] case strings.HasPrefix(parent, r.path+\"/\"): found = true parent = path.Join(pr[0], strings.TrimPrefix(parent, r.path)) }", "    newParents = append(newParents, parent)", "  }", "  if found {", "    value.parents = newParents", "  }", "}", "opts.flattenContext.newRefs[r.key].isOAIGen = false", "opts.flattenContext.newRefs[r.key].resolved = true", "if r.schema != nil && r.schema.Ref.String() == \"\" {", "  asch, err := Schema(SchemaOpts{Schema: r.schema, Root: opts.Swagger(), BasePath: opts.BasePath}) !", "  replacedWithComplex = replacedWithComplex || !(path.Dir(pr[0]) == definitionsPath) && asch.isAnalyzedAsComplex()", "}", "return replacedWithComplex, nil"]),
+    ("Name", ["parts := sortref.KeyParts(key)", "range namesFromKey(parts, aschema, isn.Operations) {", "  if name == \"\" {", "    continue", "  }", "  mangle := mangler(isn.opts)", "  newName, isOAIGen := uniqifyName(isn.Spec.Definitions, mangle(name))", "  sch := schutils.Clone(schema)", "  replace.RewriteSchemaToRef(isn.Spec, key, spec.MustCreateRef(path.Join(definitionsPath, newName))) ! via ErrInlineDefinition(newName, err)", "  an := New(isn.Spec)", "  range an.references.allRefs {", "    r, erd := replace.DeepestRef(isn.opts.Swagger(), isn.opts.ExpandOpts(false), v) ! via ErrAtKey(k, erd)", "    if isn.opts.flattenContext != nil {", "      isn.opts.flattenContext.warnings = append(isn.opts.flattenContext.warnings, r.Warnings...)", "    }", "    if r.Ref.String() != key && (r.Ref.String() != path.Join(definitionsPath, newName) || path.Dir(v.String()) == definitionsPath) {", "      continue", "    }", "    replace.UpdateRef(isn.Spec, k, spec.MustCreateRef(path.Join(definitionsPath, newName))) !", "  }", "  sch.AddExtension(\"x-go-gen-location\", GenLocation(parts))", "  schutils.Save(isn.Spec, newName, sch)", "  if isn.flattenContext == nil {", "    continue", "  }", "  resolved := false", "  if _, ok := isn.flattenContext.newRefs[key]; ok {", "    resolved = isn.flattenContext.newRefs[key].resolved", "  }", "  isn.flattenContext.newRefs[key] = &newRef{ key: key, newName: newName, path: path.Join(definitionsPath, newName), isOAIGen: isOAIGen, resolved: resolved, schema: sch, }", "}", "return nil"]),
+    ("uniqifyName", ["isOAIGen := false", "if name == \"\" {", "  name = \"oaiGen\"", "  isOAIGen = true", "}", "if len(definitions) == 0 {", "  return name, isOAIGen", "}", "known := func(candidate string) bool { for k := range definitions { if strings.EqualFold(k, candidate) { return true } } return false }", "if !known(name) {", "  return name, isOAIGen", "}", "name += \"OAIGen\"", "isOAIGen = true", "var idx int", "unique := name", "for known(unique) {", "  idx++", "  unique = fmt.Sprintf(\"%s%d\", name, idx)", "}", "return unique, isOAIGen"]),
+    ("namesFromKey", ["var ( baseNames [][]string startIndex int )", "switch { case parts.IsOperation(): baseNames, startIndex = namesForOperation(parts, operations) case parts.IsDefinition(): baseNames, startIndex = namesForDefinition(parts) default: baseNames = [][]string{parts} startIndex = len(baseNames) + 1 }", "result := make([]string, 0, len(baseNames))", "range baseNames {", "  nm := parts.BuildName(segments, startIndex, partAdder(aschema))", "  if nm == \"\" {", "    continue", "  }", "  result = append(result, nm)", "}", "sort.Strings(result)", "return result"]),
+    ("namesForParam", ["var ( baseNames [][]string startIndex int )", "piref := parts.PathItemRef()", "if piref.String() != \"\" && parts.IsOperationParam() {", "  if op, ok := operations[piref.String()]; ok {", "    startIndex = 5", "    baseNames = append(baseNames, []string{op.ID, \"params\", \"body\"})", "  }", "} else", "if parts.IsSharedOperationParam() {", "  pref := parts.PathRef()", "  range operations {", "    if strings.HasPrefix(k, pref.String()) {", "      startIndex = 4", "      baseNames = append(baseNames, []string{v.ID, \"params\", \"body\"})", "    }", "  }", "}", "return baseNames, startIndex"]),
+    ("namesForOperation", ["var ( baseNames [][]string startIndex int )", "if parts.IsOperationParam() || parts.IsSharedOperationParam() {", "  baseNames, startIndex = namesForParam(parts, operations)", "}", "if parts.IsOperationResponse() {", "  piref := parts.PathItemRef()", "  if piref.String() != \"\" {", "    if op, ok := operations[piref.String()]; ok {", "      startIndex = 6", "      baseNames = append(baseNames, []string{op.ID, parts.ResponseName(), \"body\"})", "    }", "  }", "}", "return baseNames, startIndex"]),
+    ("nameFromRef", ["mangle := mangler(o)", "u := ref.GetURL()", "if u.Fragment != \"\" {", "  return mangle(path.Base(u.Fragment))", "}", "if u.Path != \"\" {", "  bn := path.Base(u.Path)", "  if bn != \"\" && bn != \"/\" {", "    ext := path.Ext(bn)", "    if ext != \"\" {", "      return mangle(bn[:len(bn)-len(ext)])", "    }", "    return mangle(bn)", "  }", "}", "return mangle(strings.ReplaceAll(u.Host, \".\", \" \"))"])
+  ]
+
 /-- the values the theorems need; `FactsOK` shows the regenerated ones agree up to order -/
 def reference : Facts where
   fixerMethods := ["get", "put", "post", "delete", "options", "head", "patch"]
@@ -101,5 +132,6 @@ def reference : Facts where
   mapRanges := []
   paramsForMethods := ["get", "head", "options", "post", "patch", "put", "delete"]
   skeletons := flattenSkeletons
+  phaseSkeletons := flattenPhaseSkeletons
 
 end Facts
